@@ -1156,6 +1156,12 @@ class Hyperplane(Subspace):
         if (np.abs(eval_differences) > ERROR_THRESHOLD).any():
             raise GeometryError("Not a reflection matrix")
 
+        #a reflection is also an involution (the eigenvalues alone do
+        #not rule out a nontrivial Jordan block for the eigenvalue 1)
+        if (np.abs(matrix @ matrix - np.identity(dimension + 1))
+            > ERROR_THRESHOLD).any():
+            raise GeometryError("Not a reflection matrix")
+
         #sometimes eigenvalues will be complex due to roundoff error
         #so we cast to reals to avoid warnings.
         reflected = np.argmin(np.real(evals), axis=-1)
